@@ -3,12 +3,14 @@ from __future__ import annotations
 
 import random
 
-from ..engine import monitors, reuse, suite
-from ..runner import Env, Outcome
+from ..engine import gate, monitors, overlap, reuse, suite
+from ..runner import Divergence, Driver, Env, Outcome, diff_streams
 
 THEOREMS = ["C04_init_live", "C04_terminal_last", "C04_crash_unreachable", "C04_terminal_last_unconditional",
             "C04_outcome_once", "C04_consumer_terminates_of_endedWell", "C04_consumer_terminates", "C04_statement_holds",
-            "C04_refuted_witness_unrepaired", "C04_refuted_unrepaired", "C04_unrepaired_differs_only_on_raise"]
+            "C04_refuted_witness_unrepaired", "C04_refuted_unrepaired", "C04_unrepaired_differs_only_on_raise",
+            "C04_overlap_source_shape", "C04_overlap_exactly_once", "C04_overlap_holds", "C04_overlap_refuted_unrepaired",
+            "C04_overlap_guarded_unrepaired", "C04_overlap_guard_position_matters"]
 LEAN_TARGETS = ["WfProps.C04"]
 EXPLANATION = (
     "Runner LTS: for every configuration, retry-policy oracle (also one that raises), initial state satisfying the "
@@ -23,7 +25,15 @@ EXPLANATION = (
     "reducer => no terminal event) the statement is refuted (C04_refuted_unrepaired, reducer variant kept in Lean); the "
     "raising-policy witness and raising policies in the generated stream run on the real engine on every run as "
     "regression tests. Tie: runner correspondence tick by tick (commands in order, stream length, outcome). Search: "
-    "outcome vs terminal event, uniqueness, nothing after it, consumer termination."
+    "outcome vs terminal event, uniqueness, nothing after it, consumer termination. "
+    "Every consumer, not only the first: stream-gate LTS of ExternalAsyncioAdapter.stream_published_events (FIFO stream lock, "
+    "'already consumed' guard, publish queue; any number of consumers, any interleaving with publications and the end of the "
+    "run's task; guard position and stream_finished flag re-extracted from the source): in every quiescent state after the "
+    "terminal item was taken and the task is done every consumer has terminated (C04_overlap_holds); nothing is delivered twice "
+    "or lost (C04_overlap_exactly_once); false of the code before repair fix-C04e (C04_overlap_refuted_unrepaired; true part "
+    "C04_overlap_guarded_unrepaired) and of a guard evaluated in front of the lock (C04_overlap_guard_position_matters). Tie: the "
+    "real adapter driven op by op against the model. Search: 1-3 consumers of one run's stream alive at once on live workflows, "
+    "all four outcome kinds, under the virtual loop - all finished once the run has ended and nothing is runnable."
 )
 ASSUMPTIONS = suite.ENGINE_ASSUMPTIONS + [
     "steps returning non-events are turned into step failures by the step wrapper (exercised by the monitors, 'ret bad' scripts)",
@@ -33,6 +43,8 @@ ASSUMPTIONS = suite.ENGINE_ASSUMPTIONS + [
     "(no introspectable `next`: inspect.signature raising; a non-numeric delay) and exceptions raised by the runtime adapter inside the "
     "control loop (get_now, write_to_event_stream, wait_for_next_task - store faults are C15's subject) are outside the model: those "
     "still end a run without a terminal event",
+    "several consumers: consumer tasks are not cancelled while they wait; a consumer that has been given the terminal event eventually "
+    "asks for the next item or closes its generator (model: `finish`); asyncio.Lock is FIFO without barging (CPython 3.12, trusted)",
 ]
 
 
@@ -81,13 +93,81 @@ def _reuse_runs(env: Env, out: Outcome, n: int) -> None:
             out.violations.append(v)
 
 
+def _overlap_runs(env: Env, out: Outcome, n: int) -> None:
+    """2..3 consumers of ONE run's stream alive at the same time (owner reads through the terminal event, the others arrive
+    before / while / right after it is taken), every outcome kind: once the run has ended and the virtual loop is quiescent
+    every consumer has terminated (terminal event, left on its own, or refused); nothing delivered twice or lost"""
+    rng = random.Random(env.rng.randrange(1 << 30))
+    jobs = []
+    if env.replay is not None and isinstance(env.replay.get("payload", {}).get("case"), dict) and "overlap" in env.replay["payload"]["case"]:
+        jobs.append(env.replay["payload"]["case"]["overlap"])
+    jobs += [sc for item in suite.load_corpus("C04/overlap") for sc in item["scenarios"]]
+    jobs += [overlap.gen_scenario(rng) for _ in range(n)]
+    for sc in jobs:
+        vs, info = overlap.run_scenario(sc)
+        out.evaluations += 1
+        for k, v in info.items():
+            out.count(f"overlap:{k}", v)
+        out.count("overlap:kind:" + sc["kind"])
+        out.count("overlap:consumers", len(sc["consumers"]))
+        if len(sc["consumers"]) >= 2 and info.get("terminal_delivered"):
+            out.nontrivial(("overlap", repr(sc)))
+        out.violations += vs
+
+
+def _gate_runs(env: Env, out: Outcome, n: int) -> None:
+    """(K) the real ExternalAsyncioAdapter.stream_published_events, op by op (arrive / publish / complete / finish, settled
+    after each), against `wfdriver streamgate` (model configured from the current source); (S) at the end of each sequence
+    the run is over and nobody holds the terminal event: no consumer may be pending"""
+    rng = random.Random(env.rng.randrange(1 << 30))
+    seqs: list[list[str]] = []
+    if env.replay is not None and isinstance(env.replay.get("payload", {}).get("case"), dict) and "gate_ops" in env.replay["payload"]["case"]:
+        seqs.append(list(env.replay["payload"]["case"]["gate_ops"]))
+    seqs += [list(sq) for item in suite.load_corpus("C04/gate") for sq in item["sequences"]]
+    seqs += [gate.gen_ops(rng) for _ in range(n)]
+    seqs.append(list(gate.MALFORMED))
+    ops: list[str] = []
+    exp: list[str] = []
+    owner: list[int] = []
+    for k, sq in enumerate(seqs):
+        lines, facts = gate.run_real(sq)
+        ops += ["reset"] + sq
+        exp += ["reset"] + lines
+        owner += [k] * (len(sq) + 1)
+        out.evaluations += 1
+        out.count("gate:sequences")
+        out.count("gate:ops", len(sq))
+        for l in lines:
+            out.count("gate:answer:" + l.split(" ", 1)[0])
+        if facts.get("over"):
+            out.count("gate:run_over:" + ("owner_released_after_task_done" if facts.get("complete_before_release") else "owner_released_before_task_done"))
+        ncons = len([o for o in sq if o.startswith("arrive|")])
+        if ncons >= 2 and facts.get("over"):
+            out.nontrivial(("gate", tuple(sq)))
+        out.violations += gate.monitor(sq, facts)
+    try:
+        mo = Driver("streamgate").run(ops)
+    except Exception as ex:
+        out.divergences.append(Divergence("streamgate", 0, "<driver>", repr(ex), ""))
+        return
+    out.traces_validated += len(seqs)
+    out.disagreements_checked += len(ops)
+    d = diff_streams("streamgate", ops, mo, exp)
+    if d is not None:
+        sq = seqs[owner[d.index]] if d.index < len(owner) else None
+        d.context = {"gate_ops": sq}
+        out.divergences.append(d)
+
+
 def run(env: Env) -> Outcome:
     out = Outcome()
     out.rule = ("direct (state,tick) pairs + live scripted workflows (steps that raise, return non-events, race with StopEvent, "
-                "cancel/timeout externals, raising retry policies in a tenth of the specs); run histories reusing one run_id on one runtime; non-trivial = more than 2 ticks; distinct by (spec, schedule)")
+                "cancel/timeout externals, raising retry policies in a tenth of the specs); run histories reusing one run_id on one runtime; several consumers of one run's stream alive at once (all four outcome kinds); non-trivial = more than 2 ticks; distinct by (spec, schedule)")
     suite.direct_corr(env, out, env.budget(3000, 60000))
-    suite.live_runs(env, out, env.budget(400, 8000), [monitors.mon_c04], extra_specs=suite.load_corpus("C04"),
+    suite.live_runs(env, out, env.budget(400, 8000), [monitors.mon_c04], extra_specs=[c for c in suite.load_corpus("C04") if "spec" in c],
                     mutate_spec=_raising)
     suite.live_runs(env, out, env.budget(120, 2400), [monitors.mon_c04], mutate_spec=_cancel_reporting)
     _reuse_runs(env, out, env.budget(150, 3000))
+    _overlap_runs(env, out, env.budget(220, 3000))
+    _gate_runs(env, out, env.budget(250, 4000))
     return out
